@@ -29,7 +29,12 @@ def efun(x):
     Returns:
         float: x/[exp(x)-1]
     """
-    return x / (save_exp(x) - 1.0)
+    # The singularity at x = 0 is removable, x / (exp(x) - 1) -> 1 - x / 2. Without
+    # this, a voltage of exactly, e.g., `vt + 13` mV made the gates NaN. The
+    # double-where keeps the unused branch (and its gradient) finite.
+    near_zero = jnp.abs(x) < 1e-6
+    x_safe = jnp.where(near_zero, 1.0, x)
+    return jnp.where(near_zero, 1.0 - x / 2.0, x_safe / (save_exp(x_safe) - 1.0))
 
 
 class Leak(Channel):
